@@ -304,6 +304,9 @@ func partA(f *lib.Flags, res *lib.Result) (lists, ties int64) {
 			}
 			msgs = w[i]
 		}
+		if tot, _ := res.Distribution["disagreements_total"].(int); tot >= 50 {
+			break // mass disagreement: enough to look at
+		}
 		got, crash := goErrorSort(msgs)
 		if crash != "" {
 			res.AddDisagreement(lib.Disagreement{Kind: "crash", Input: msgs, Go: crash, SpecVerdict: "violates", What: "errorSort panicked: " + crash,
@@ -508,10 +511,27 @@ func describeDiff(a, b runOut) string {
 	case !sameStrings(a.Raw, b.Raw):
 		return fmt.Sprintf("returned errors differ: %q / %q", a.Raw, b.Raw)
 	case !sameStrings(a.Dump, b.Dump):
-		return "trees differ: " + rescorr.Diff(a.Dump, b.Dump)
+		return "trees differ: " + diffRuns(a.Dump, b.Dump)
 	default:
-		return "identity value lists differ: " + rescorr.Diff(a.Ext, b.Ext)
+		return "identity value lists differ: " + diffRuns(a.Ext, b.Ext)
 	}
+}
+
+// diffRuns describes the first differing record of two Go runs.
+func diffRuns(a, b []string) string {
+	for i := 0; i < len(a) || i < len(b); i++ {
+		var x, y string
+		if i < len(a) {
+			x = a[i]
+		}
+		if i < len(b) {
+			y = b[i]
+		}
+		if x != y {
+			return fmt.Sprintf("record %d: first run: %s | other run: %s", i, rescorr.Readable(x), rescorr.Readable(y))
+		}
+	}
+	return ""
 }
 
 func runJobs(jobs []job, f *lib.Flags) ([]jobOut, []string) {
@@ -552,8 +572,8 @@ func main() {
 	res.Distribution["errorSort_message_lists"] = lists
 
 	// B: source sets through the library
-	n, R, sample := 3000, 8, 24
-	nCli, Rcli := 400, 8
+	n, R, sample := 4000, 8, 24
+	nCli, Rcli := 600, 8
 	if f.Thorough() {
 		n, R, sample = 50000, 64, 200
 		nCli, Rcli = 4000, 64
